@@ -26,6 +26,12 @@ type Standin struct {
 }
 
 var propStandins = map[string][]Standin{
+	"C11": {{
+		Name: "tag-api", Pkg: "internal/index/manager", TestFile: "tags_standin_test.go", TestName: "TestC11Standin", OutEnv: "C11_OUT",
+		EnvQuick: []string{"C11_SEQS=150", "C11_LEN=7"}, EnvThorough: []string{"C11_SEQS=1500", "C11_LEN=9"},
+		Bound:   "the tag management API as a whole through a real Manager (validation outside the handlers, UpdateTag, acyclicity, atomicity of rejected calls, responsiveness): 150 (quick) / 1500 (thorough) seeded random sequences of 7 / 9 calls out of AddTag, DelTag, UpdateTag(query | colour | name | mark add | mark del) over 9 names (6 valid, 3 invalid), 14 fixed definitions plus definitions over the tags that exist, 6 stream id lists, with and without 4 imported streams; after every call: error exactly when a plain model of the graph rejects it (unknown/duplicate/invalid name, parse error, self reference, missing reference, reference cycle, delete or rename of a referenced tag, unknown stream id), a rejected call leaves ListTags unchanged, names/definitions/colours/Referenced flags/mark counts equal the model, every call answers within 10 s",
+		Timeout: 30 * time.Minute,
+	}},
 	"C02": {{
 		Name: "search-oracle", Pkg: "internal/index", TestFile: "search_standin_test.go", TestName: "TestC02Standin", OutEnv: "C02_OUT",
 		EnvQuick: []string{"C02_ROUNDS=40", "C02_QUERIES=60"}, EnvThorough: []string{"C02_ROUNDS=300", "C02_QUERIES=100"},
@@ -102,6 +108,7 @@ func runStandin(sd Standin, tier string) standinResult {
 		Nontrivial  int                 `json:"nontrivial"`
 		Samples     any                 `json:"samples"`
 		Failures    []map[string]any `json:"failures"`
+		Inflight    json.RawMessage  `json:"inflight"`
 	}
 	if jerr := json.Unmarshal(data, &parsed); jerr != nil {
 		res.Err = "bad stand-in output: " + jerr.Error()
@@ -121,7 +128,16 @@ func runStandin(sd Standin, tier string) standinResult {
 		res.Failures = append(res.Failures, m)
 	}
 	if err != nil && len(parsed.Failures) == 0 {
-		res.Err = "stand-in test failed: " + truncate(strings.TrimSpace(string(b)), 2000)
+		if len(parsed.Inflight) > 0 && string(parsed.Inflight) != "null" {
+			// the test binary died while this input was being run: report the input
+			outp := strings.TrimSpace(string(b))
+			if i := strings.Index(outp, "panic:"); i >= 0 {
+				outp = outp[i:]
+			}
+			res.Failures = append(res.Failures, map[string]string{"class": "crash", "input": string(parsed.Inflight), "detail": "the process died while running this sequence: " + truncate(outp, 600)})
+		} else {
+			res.Err = "stand-in test failed: " + truncate(strings.TrimSpace(string(b)), 2000)
+		}
 	}
 	return res
 }
